@@ -1,60 +1,407 @@
 //go:build verif
 
+// c18: streams flow live, stalls are cut, cancellations propagate — in real time, through the
+// unchanged production stack, against causally gated backends (package timing).
+//
+// Every scenario gets a fresh stack + backend; scenarios run in batches; per batch the goroutine count
+// and the backends' open connections are measured before and at quiescence after (leak clause: measured,
+// not proved). Because the verdicts depend on wall-clock time, a scenario whose verdict is bad is re-run
+// (same scenario, same seed) and only reported if it is bad three times; the oracle for "bad" is the Lean
+// driver itself ($VERIF_OUT/olla_model, which bin/check places there before the harness starts).
 package main
 
 import (
+	"bufio"
+	"bytes"
 	"encoding/json"
 	"fmt"
 	"os"
+	"os/exec"
+	"time"
 
 	"github.com/thushan/olla/internal/zz_verif/timing"
+	"github.com/thushan/olla/internal/zz_verif/vlib"
 )
 
-func main() {
-	var scs []*timing.Scenario
-	base := func(engine, profile string, forced bool, ct string) *timing.Scenario {
-		return &timing.Scenario{Engine: engine, Profile: profile, Forced: forced, CT: ct, Framing: "chunked", AbortBytes: -1, TimeoutMs: 150, AckMs: 60, HoldMs: 1150, Route: "proxy", Ending: "eof", EndGapMs: 20}
+const (
+	timeoutMs = 150
+	ackMs     = 60
+	holdMs    = 1150
+)
+
+var engines = []string{"sherpa", "olla"}
+var cts = []string{"text/event-stream", "application/x-ndjson", "application/json", "application/octet-stream"}
+
+// (profile, forced): "wired" is the production wiring alone, "forced" pushes the profile into the engine
+type pm struct {
+	profile string
+	forced  bool
+}
+
+var pms = []pm{{"auto", false}, {"streaming", true}, {"standard", true}, {"streaming", false}, {"standard", false}}
+
+func base(engine string, p pm, ct string) *timing.Scenario {
+	return &timing.Scenario{Engine: engine, Profile: p.profile, Forced: p.forced, CT: ct, Framing: "chunked", AbortBytes: -1,
+		TimeoutMs: timeoutMs, AckMs: ackMs, HoldMs: holdMs, Route: "proxy", Ending: "eof", EndGapMs: 20}
+}
+
+func steps(gs []int, sz []int) []timing.Step {
+	out := make([]timing.Step, len(gs))
+	for i := range gs {
+		out[i] = timing.Step{GapMs: gs[i], Size: sz[i%len(sz)]}
 	}
-	for _, e := range []string{"sherpa", "olla"} {
-		a := base(e, "auto", false, "text/event-stream")
-		a.Steps = []timing.Step{{20, 10}, {60, 100}, {20, 5000}}
-		scs = append(scs, a)
-		b := base(e, "auto", false, "text/event-stream")
-		b.Steps = []timing.Step{{20, 10}, {60, 100}}
-		b.Ending = "stall"
-		scs = append(scs, b)
-		c := base(e, "auto", false, "text/event-stream")
-		c.Steps = []timing.Step{{20, 10}, {400, 100}, {20, 7}}
-		scs = append(scs, c)
-		d := base(e, "standard", false, "text/event-stream")
-		d.Steps = []timing.Step{{20, 10}, {20, 100}, {20, 7}}
-		scs = append(scs, d)
-		d2 := base(e, "standard", true, "text/event-stream")
-		d2.Steps = []timing.Step{{20, 10}, {20, 100}, {20, 7}}
-		scs = append(scs, d2)
-		f := base(e, "streaming", false, "application/octet-stream")
-		f.Steps = []timing.Step{{20, 10}, {20, 100}, {20, 7}}
-		scs = append(scs, f)
-		g := base(e, "auto", false, "text/event-stream")
-		g.Steps = []timing.Step{{20, 10}, {60, 100}, {60, 100}, {60, 100}}
-		g.AbortBytes = 10
-		scs = append(scs, g)
-		h := base(e, "auto", false, "text/event-stream")
-		h.Pre = "stall"
-		scs = append(scs, h)
-		i := base(e, "auto", false, "application/json")
-		i.Steps = []timing.Step{{20, 10}, {60, 100}}
-		i.Ending = "reset"
-		scs = append(scs, i)
+	return out
+}
+
+// corpus: the corner cases and every known witness, for both engines
+func corpus() []*timing.Scenario {
+	var out []*timing.Scenario
+	for _, e := range engines {
+		sse, bin, js, nd := cts[0], cts[3], cts[2], cts[1]
+		auto := pm{"auto", false}
+		add := func(s *timing.Scenario) { out = append(out, s) }
+		// live, complete
+		s := base(e, auto, sse)
+		s.Steps = steps([]int{20, 60, 20}, []int{1, 100, 5000})
+		add(s)
+		s = base(e, auto, nd)
+		s.Steps = steps([]int{60, 20, 60, 20}, []int{17, 1, 300, 2})
+		add(s)
+		// DESIGN §4 #20 witness: [chunk, stallForever]
+		s = base(e, auto, sse)
+		s.Steps = steps([]int{20}, []int{64})
+		s.Ending = "stall"
+		add(s)
+		// stall right after the headers
+		s = base(e, auto, sse)
+		s.Ending = "stall"
+		add(s)
+		// stall before any header
+		s = base(e, auto, sse)
+		s.Pre = "stall"
+		add(s)
+		// pause above the timeout, then the backend carries on
+		s = base(e, auto, sse)
+		s.Steps = steps([]int{20, 400, 20}, []int{10, 100, 7})
+		add(s)
+		// pause above the timeout, then a clean EOF
+		s = base(e, auto, js)
+		s.Steps = steps([]int{20, 60}, []int{10, 100})
+		s.EndGapMs = 400
+		add(s)
+		// upstream reset mid-body / right after the headers
+		s = base(e, auto, js)
+		s.Steps = steps([]int{20, 60}, []int{10, 100})
+		s.Ending = "reset"
+		add(s)
+		s = base(e, auto, sse)
+		s.Ending = "reset"
+		add(s)
+		// buffered: binary under auto, anything under a forced standard profile
+		s = base(e, auto, bin)
+		s.Steps = steps([]int{20, 20, 20}, []int{10, 100, 7})
+		add(s)
+		s = base(e, pm{"standard", true}, sse)
+		s.Steps = steps([]int{20, 20, 20}, []int{10, 100, 7})
+		add(s)
+		// streaming profile really pushed into the engine: binary flows live
+		s = base(e, pm{"streaming", true}, bin)
+		s.Steps = steps([]int{20, 20, 20}, []int{10, 100, 7})
+		add(s)
+		// the configured profile through the production wiring only
+		s = base(e, pm{"streaming", false}, bin)
+		s.Steps = steps([]int{20, 20, 20}, []int{10, 100, 7})
+		add(s)
+		s = base(e, pm{"standard", false}, sse)
+		s.Steps = steps([]int{20, 20, 20}, []int{10, 100, 7})
+		add(s)
+		// buffered + stall: the client has seen nothing when the backend stops
+		s = base(e, pm{"standard", true}, js)
+		s.Steps = steps([]int{20, 20}, []int{10, 100})
+		s.Ending = "stall"
+		add(s)
+		// client aborts: after the headers, after the first chunk, in the middle of a long pause, before the headers
+		s = base(e, auto, sse)
+		s.Steps = steps([]int{60, 60, 60}, []int{10, 100, 100})
+		s.AbortBytes = 0
+		add(s)
+		s = base(e, auto, sse)
+		s.Steps = steps([]int{20, 60, 60, 60}, []int{10, 100, 100, 100})
+		s.AbortBytes = 10
+		add(s)
+		s = base(e, auto, nd)
+		s.Steps = steps([]int{20, 400, 20}, []int{10, 100, 100})
+		s.AbortMs = 100
+		add(s)
+		s = base(e, auto, sse)
+		s.HdrDelayMs = 300
+		s.Steps = steps([]int{20}, []int{10})
+		s.AbortMs = 80
+		add(s)
+		// big chunks (many reads per chunk), live and buffered; content-length framing
+		s = base(e, auto, sse)
+		s.Steps = steps([]int{20, 20}, []int{65536, 262144})
+		add(s)
+		s = base(e, auto, bin)
+		s.Steps = steps([]int{20, 20}, []int{262144, 1})
+		s.Framing = "cl"
+		add(s)
+		s = base(e, auto, js)
+		s.Steps = steps([]int{20, 60}, []int{8192, 8193})
+		s.Framing = "cl"
+		add(s)
 	}
-	out, lk := timing.RunBatch(scs)
+	return out
+}
+
+var sizes = []int{1, 2, 7, 64, 512, 2047, 2048, 4096, 8191, 8192, 8193, 20000, 65536, 131072, 262144}
+
+func random(r *vlib.Rng) *timing.Scenario {
+	e := vlib.Pick(r, engines)
+	p := vlib.Pick(r, pms)
+	if r.Chance(1, 2) {
+		p = pms[0]
+	}
+	s := base(e, p, vlib.Pick(r, cts))
+	n := 1 + r.Intn(5)
+	long := -1
+	shape := r.Intn(10)
+	if shape == 3 || shape == 4 {
+		long = r.Intn(n)
+	}
+	for i := 0; i < n; i++ {
+		g := vlib.Pick(r, []int{20, 20, 60})
+		if i == long {
+			g = 400
+		}
+		sz := sizes[r.Intn(9)] // mostly small
+		if r.Chance(1, 5) {
+			sz = vlib.Pick(r, sizes)
+		}
+		s.Steps = append(s.Steps, timing.Step{GapMs: g, Size: sz})
+	}
+	s.EndGapMs = vlib.Pick(r, []int{20, 60})
+	switch shape {
+	case 0, 1, 2, 3: // eof
+	case 4:
+		s.Ending = "reset"
+	case 5:
+		s.Ending = "stall"
+	case 6:
+		s.Ending = "stall"
+		if r.Chance(1, 3) {
+			s.Steps = nil
+		}
+	case 7:
+		s.EndGapMs = 400
+	case 8: // abort after some bytes
+		tot := 0
+		for _, st := range s.Steps {
+			tot += st.Size
+		}
+		s.AbortBytes = r.Intn(tot + 1)
+	case 9:
+		if r.Chance(1, 2) {
+			s.Ending = "reset"
+		} else {
+			s.AbortMs = 30 + r.Intn(150)
+		}
+	}
+	if r.Chance(1, 4) {
+		s.Framing = "cl"
+	}
+	return s
+}
+
+// ---------------------------------------------------------------- verdict oracle for the 3x rule
+
+type verdict struct {
+	Agree bool   `json:"agree"`
+	Spec  bool   `json:"spec"`
+	Sig   string `json:"sig"`
+}
+
+func modelBin() string {
+	if v := os.Getenv("VERIF_MODEL_BIN"); v != "" {
+		return v
+	}
+	p := vlib.OutDir() + "/olla_model"
+	if _, err := os.Stat(p); err == nil {
+		return p
+	}
+	return ""
+}
+
+// judge returns one verdict per (scenario, obs) pair, or nil when the Lean driver is not available.
+func judge(scs []*timing.Scenario, obs []*timing.Obs) []verdict {
+	bin := modelBin()
+	if bin == "" {
+		return nil
+	}
+	var in bytes.Buffer
 	for i := range scs {
-		a, _ := json.Marshal(scs[i])
-		b, _ := json.Marshal(out[i])
-		fmt.Println(string(a))
-		fmt.Println("   ", string(b))
+		b, _ := json.Marshal(map[string]any{"case": i, "kind": "scenario", "scenario": scs[i], "impl": obs[i]})
+		in.Write(b)
+		in.WriteByte('\n')
 	}
-	b, _ := json.Marshal(lk)
-	fmt.Println(string(b))
-	os.Exit(0)
+	cmd := exec.Command(bin, "C18")
+	cmd.Stdin = &in
+	out, err := cmd.Output()
+	if err != nil {
+		fmt.Fprintln(os.Stderr, "c18: olla_model failed:", err)
+		return nil
+	}
+	vs := make([]verdict, 0, len(scs))
+	sc := bufio.NewScanner(bytes.NewReader(out))
+	sc.Buffer(make([]byte, 1<<20), 1<<26)
+	for sc.Scan() {
+		var v verdict
+		if json.Unmarshal(sc.Bytes(), &v) == nil {
+			vs = append(vs, v)
+		}
+	}
+	if len(vs) != len(scs) {
+		return nil
+	}
+	return vs
+}
+
+func bad(v verdict) bool { return !v.Agree || !v.Spec }
+
+func main() {
+	tier := vlib.Tier()
+	r := vlib.NewRng(vlib.Seed())
+	c := vlib.OpenCases("cases.jsonl")
+	t0 := time.Now()
+	var scs []*timing.Scenario
+	if rp := vlib.ReplayPath(); rp != "" {
+		var rep struct {
+			FailingCase struct {
+				Scenario *timing.Scenario `json:"scenario"`
+			} `json:"failing_case"`
+		}
+		b, _ := os.ReadFile(rp)
+		json.Unmarshal(b, &rep)
+		if rep.FailingCase.Scenario == nil {
+			fmt.Fprintln(os.Stderr, "c18: replay file has no failing_case.scenario")
+			os.Exit(2)
+		}
+		scs = append(scs, rep.FailingCase.Scenario)
+	} else {
+		scs = corpus()
+		n, batch := 64, 32
+		if tier == "thorough" {
+			n = 600
+		}
+		_ = batch
+		for len(scs) < n {
+			scs = append(scs, random(r))
+		}
+	}
+	batch := 32
+	if tier == "thorough" {
+		batch = 40
+	}
+	obs := make([]*timing.Obs, len(scs))
+	var leaks []timing.Leak
+	for lo := 0; lo < len(scs); lo += batch {
+		hi := lo + batch
+		if hi > len(scs) {
+			hi = len(scs)
+		}
+		o, lk := timing.RunBatch(scs[lo:hi])
+		copy(obs[lo:hi], o)
+		leaks = append(leaks, lk)
+	}
+	// 3x rule
+	repro := make([]int, len(scs))
+	flaky := 0
+	if vs := judge(scs, obs); vs != nil {
+		var idx []int
+		for i, v := range vs {
+			if bad(v) {
+				idx = append(idx, i)
+				repro[i] = 1
+			}
+		}
+		for round := 0; round < 2 && len(idx) > 0; round++ {
+			sub := make([]*timing.Scenario, len(idx))
+			for k, i := range idx {
+				sub[k] = scs[i]
+			}
+			var o2 []*timing.Obs
+			for lo := 0; lo < len(sub); lo += batch {
+				hi := lo + batch
+				if hi > len(sub) {
+					hi = len(sub)
+				}
+				o, lk := timing.RunBatch(sub[lo:hi])
+				o2 = append(o2, o...)
+				leaks = append(leaks, lk)
+			}
+			v2 := judge(sub, o2)
+			if v2 == nil {
+				break
+			}
+			var still []int
+			for k, i := range idx {
+				if bad(v2[k]) {
+					repro[i]++
+					still = append(still, i)
+				} else {
+					// not reproduced: the clean observation replaces the bad one, the flake is counted
+					obs[i] = o2[k]
+					repro[i] = 0
+					flaky++
+					c.Count("timing-flake-not-reproduced")
+				}
+			}
+			idx = still
+		}
+	} else {
+		c.Count("no-oracle-available-for-reruns")
+	}
+	for i, sc := range scs {
+		mode := "wired"
+		if sc.Forced {
+			mode = "forced"
+		}
+		c.Count("engine." + sc.Engine)
+		c.Count("profile." + sc.Profile + "." + mode)
+		c.Count("ct." + sc.CT)
+		c.Count("ending." + sc.Ending)
+		if sc.Pre != "" {
+			c.Count("pre." + sc.Pre)
+		}
+		if sc.AbortBytes >= 0 || sc.AbortMs > 0 {
+			c.Count("client-abort")
+		}
+		mx := 0
+		for _, st := range sc.Steps {
+			if st.Size > mx {
+				mx = st.Size
+			}
+			if st.GapMs >= 400 {
+				c.Count("long-pause")
+			}
+		}
+		switch {
+		case mx >= 65536:
+			c.Count("maxchunk.>=64KiB")
+		case mx >= 8192:
+			c.Count("maxchunk.>=8KiB")
+		case mx > 0:
+			c.Count("maxchunk.<8KiB")
+		}
+		m := map[string]any{"kind": "scenario", "scenario": sc, "impl": obs[i]}
+		if repro[i] > 0 {
+			m["reproduced"] = repro[i]
+		}
+		c.Emit(m)
+	}
+	for _, lk := range leaks {
+		c.Emit(map[string]any{"kind": "leak", "impl": lk})
+	}
+	c.Close(map[string]any{"exhaustive": false, "flaky_not_reproduced": flaky, "harness_wall_s": time.Since(t0).Seconds(),
+		"note": "corpus of hard-coded corner cases and witnesses for both engines first, then random scenarios; leak clause measured per batch"})
 }
